@@ -83,6 +83,15 @@ def finalizeDest (pb : List PbField) (reMap : List (String × String)) (dest : S
     | some go => if go ≠ "" then .ok ⟨go, little, 0, .none, false⟩ else .ok ⟨dest, little, 0, .none, false⟩
     | none => .ok ⟨dest, little, 0, .none, false⟩
 
+/-- two element statements with the same map key `fmt.Sprintf("%v-%d-%d", PenProvided, Pen, Type)` -/
+def sameKey (a b : RawMap) : Bool := a.penProvided == b.penProvided && a.pen == b.pen && a.type == b.type
+
+/-- mapFieldsNetFlow fills a Go map keyed by (penprovided, pen, field) in file order: of several statements
+    with the same key only the last one exists afterwards. The survivors, in their file order. -/
+def lastPerKey : List RawMap → List RawMap
+  | [] => []
+  | m :: ms => if ms.any (sameKey m) then lastPerKey ms else m :: lastPerKey ms
+
 /-- mapConfig on a non-nil configuration. `isSlice0` is the package-level isSliceMap before. -/
 def compile (raw : RawConfig) (isSlice0 : List (String × Bool)) : Except Unit Compiled := do
   -- mapPortsSFlow
@@ -113,13 +122,15 @@ def compile (raw : RawConfig) (isSlice0 : List (String × Bool)) : Except Unit C
     for f in raw.fields do
       if (reMap.lookup f).isNone ∧ (render.lookup f).isNone then throw ()
     pure raw.fields
-  -- finalize: the three mappers
+  -- finalize: the three mappers. finalizeNetFlowMapper ranges over the entries of the map, so a statement
+  -- replaced by a later one with the same key is neither finalized (its destination cannot make Compile
+  -- fail) nor part of the mapper; the sFlow mapper keeps a list per layer: every statement is finalized
   let fin (ms : List RawMap) : Except Unit (List (RawMap × MapField)) :=
     ms.mapM fun m => do
       let f ← finalizeDest raw.protobuf reMap m.destination (m.endian == "little")
       pure (m, f)
-  let ipfix ← fin raw.ipfix
-  let v9 ← fin raw.v9
+  let ipfix ← fin (lastPerKey raw.ipfix)
+  let v9 ← fin (lastPerKey raw.v9)
   let layers ← fin raw.layers
   pure ⟨{ ipfix := ipfix.map fun (m, f) => ⟨m.penProvided, m.pen, m.type, f⟩,
           v9 := v9.map fun (m, f) => ⟨m.penProvided, m.pen, m.type, f⟩,
